@@ -40,6 +40,9 @@ inductive Action where
   | scatterv (scs : List Int) (r root : Int) (st rt : Nat)
   | alltoallv (ssz : Int) (scs : List Int) (rsz : Int) (rcs : List Int) (st rt : Nat)
   | reducescatter (rcs : List Int) (comp : Int) (ty : Nat)
+  | sendrecv (scount dst rcount src : Int) (st rt : Nat)     -- SendRecvParser ("sendRecv")
+  | scan (size comp : Int) (ty : Nat)                        -- ScanArgParser ("scan")
+  | exscan (size comp : Int) (ty : Nat)                      -- ScanArgParser ("exscan")
   deriving DecidableEq, Repr
 
 def Action.name : Action → String
@@ -50,6 +53,7 @@ def Action.name : Action → String
   | .gather .. => "gather" | .allgather .. => "allgather" | .scatter .. => "scatter" | .gatherv .. => "gatherv"
   | .allgatherv .. => "allgatherv" | .scatterv .. => "scatterv" | .alltoallv .. => "alltoallv"
   | .reducescatter .. => "reducescatter"
+  | .sendrecv .. => "sendRecv" | .scan .. => "scan" | .exscan .. => "exscan"
 
 /-! ## writer -/
 
@@ -96,6 +100,11 @@ def Action.print (fixed : Bool) : Action → List Int
   | .reducescatter rcs comp ty => printVar (-1) (-1) none (-1) (some rcs) comp.toNat (some ty)
       -- VarCollTIData("reducescatter", -1, -1, nullptr, -1, recvcounts, std::to_string(0), encode(datatype)):
       -- the "send type" slot carries the amount of computation, always "0"
+  -- PMPI_Sendrecv: VarCollTIData("sendRecv", -1, sendcount, {dst_traced}, recvcount, {src_traced}, encode(sendtype),
+  -- encode(recvtype)): the one-element "count vectors" carry the two partners; the tags are not traced
+  | .sendrecv sc dst rc src st rt => printVar (-1) sc (some [dst]) rc (some [src]) st (some rt)
+  -- PMPI_Scan / PMPI_Exscan: CollTIData("scan" | "exscan", -1, 0.0, count, 0, encode(datatype), "")
+  | .scan size comp ty | .exscan size comp ty => printColl fixed (-1) comp size 0 (some ty) none
 
 /-! ## reader -/
 
@@ -188,6 +197,16 @@ def parse (n dflt : Nat) (name : String) (args : List Int) : Option Action :=
     match args[n]? with
     | some comp => some (.reducescatter (args.take n) comp (parseTy dflt args (1 + n)))
     | none => none
+  | "sendRecv" =>                                     -- SendRecvParser, CHECK_ACTION_PARAMS(action, 6, 0)
+    if args.length < 6 then none else
+    match args[0]?, args[1]?, args[2]?, args[3]? with
+    | some sc, some dst, some rc, some src => some (.sendrecv sc dst rc src (parseTy dflt args 4) (parseTy dflt args 5))
+    | _, _, _, _ => none
+  | "scan" | "exscan" =>                              -- ScanArgParser (2, 1)
+    match args[0]?, args[1]? with
+    | some size, some comp =>
+      some (if name = "scan" then .scan size comp (parseTy dflt args 2) else .exscan size comp (parseTy dflt args 2))
+    | _, _ => none
   | _ => none
 
 /-- the records the writer can produce for a communicator of `n` ranks (what the theorem quantifies over) -/
